@@ -3,7 +3,7 @@
    pending delay; chains of transitions by induction.  All statements here are over Q. *)
 From Coq Require Import ZArith QArith Qround Qabs Bool List Lia Lqa.
 From Bardolph Require Import Base.PyNum Num.UnitsQ Gen.ParamGen Gen.ColorsysGen Gen.UnitsGen Gen.MachineUnitsGen
-     Num.UnitsFloat Num.Switch Num.UnitsQProofs Num.PathsProofs Num.SwitchProofs Num.ColorsysQProofs.
+     Num.UnitsFloat Num.Switch Num.UnitsQProofs Num.SwitchProofs Num.ColorsysQProofs Num.RgbQProofs.
 Import ListNotations.
 Open Scope Q_scope.
 
@@ -144,7 +144,7 @@ Ltac unfold_regs :=
 Lemma set_transmits_Q_eq : forall r,
   set_transmits_Q r = mksent (Some (param_color_Q (as_raw_color_Q (r_mode r) (get_color_Q r)))) None
                              (param_32_Q (as_raw_time_Q (r_mode r) (r_duration r))).
-Proof. intro r. unfold set_transmits_Q. rewrite paths_all_clamp_Q by reflexivity. reflexivity. Qed.
+Proof. intro r. reflexivity. Qed.
 
 (* ---------------------------------------------------------------- switching TO raw units *)
 
@@ -411,29 +411,9 @@ Qed.
 
 (* ---------------------------------------------------------------- transitions involving rgb *)
 
-Lemma rgb_to_raw_Q_sent : forall c : color4 Q,
-  param_color_Q (rgb_to_raw_Q c) =
-  let '(h, s, v) := rgb_to_hsv_Q (c0 c / (100 # 1)) (c1 c / (100 # 1)) (c2 c / (100 # 1)) in
-  mkcolor (param_16_Q (h * (65535 # 1))) (param_16_Q (s * (65535 # 1))) (param_16_Q (v * (65535 # 1)))
-          (param_16_Q (c3 c)).
-Proof.
-  intro c. unfold rgb_to_raw_Q.
-  destruct (rgb_to_hsv_Q _ _ _) as [[h s] v].
-  unfold param_color_Q, cmap; simpl.
-  change (py_round_Q (py_max_Q (z2q 0) (py_min_Q (h * (65535 # 1)) (z2q 65535)))) with (param_16_Q (h * (65535 # 1))).
-  change (py_round_Q (py_max_Q (z2q 0) (py_min_Q (s * (65535 # 1)) (z2q 65535)))) with (param_16_Q (s * (65535 # 1))).
-  change (py_round_Q (py_max_Q (z2q 0) (py_min_Q (v * (65535 # 1)) (z2q 65535)))) with (param_16_Q (v * (65535 # 1))).
-  rewrite !param_16_Q_idem. reflexivity.
-Qed.
-
-Lemma in01_pct : forall x, 0 <= x -> x <= 100 -> in01 (x / (100 # 1)).
-Proof. intros x H0 H1. unfold in01. qconst. lra. Qed.
-
-Lemma in01_raw : forall x, 0 <= x -> x <= 65535 -> in01 (x / (65535 # 1)).
-Proof. intros x H0 H1. unfold in01. qconst. lra. Qed.
-
-Lemma in01_deg : forall x, 0 <= x -> x <= 360 -> in01 (x / (360 # 1)).
-Proof. intros x H0 H1. unfold in01. qconst. lra. Qed.
+(* rgb_to_raw hands kelvin through untouched (the statement that a rounding of kelvin breaks) *)
+Lemma rgb_to_raw_Q_kelvin : forall c : color4 Q, c3 (rgb_to_raw_Q c) = c3 c.
+Proof. intro c. unfold rgb_to_raw_Q. destruct (rgb_to_hsv_Q _ _ _) as [[h s] v]. reflexivity. Qed.
 
 Lemma param_16_Q_zero : forall q, q == 0 -> param_16_Q q = 0%Z.
 Proof. intros q H. rewrite (param_16_Q_comp q (inject_Z 0)) by (rewrite H; reflexivity). apply param_16_Q_int. lia. Qed.
@@ -466,7 +446,7 @@ Proof.
   rewrite !set_transmits_Q_eq.
   unfold switch_Q, g_switch; simpl. unfold_regs.
   unfold as_raw_color_Q, g_as_raw_color, as_raw_time_Q, g_as_raw_time.
-  rewrite rgb_to_raw_Q_sent. simpl c0; simpl c1; simpl c2; simpl c3.
+  rewrite rgb_to_raw_Q_sent, rgb_to_raw_Q_kelvin. simpl c0; simpl c1; simpl c2; simpl c3.
   unfold valid_regs, sent_rel, sent_color, delay_ms, pending_wait_Q; simpl.
   unfold rgb_to_logical_Q; simpl.
   destruct (rgb_to_hsv_Q (rd / (100 # 1)) (gr / (100 # 1)) (bl / (100 # 1))) as [[h s] v].
@@ -543,7 +523,7 @@ Lemma sent_after_to_rgb : forall h s v (R G B k : Q),
                        (param_16_Q (v * (65535 # 1))) (param_16_Q k)).
 Proof.
   intros h s v R G B k Hh Hs Hv T.
-  rewrite rgb_to_raw_Q_sent. simpl c0; simpl c1; simpl c2; simpl c3.
+  rewrite rgb_to_raw_Q_sent, rgb_to_raw_Q_kelvin. simpl c0; simpl c1; simpl c2; simpl c3.
   pose proof (rgb_hsv_roundtrip h s v _ _ _ Hh Hs Hv T) as RT.
   destruct (rgb_to_hsv_Q (R / (100 # 1)) (G / (100 # 1)) (B / (100 # 1))) as [[h' s'] v'].
   destruct RT as [Rv [Rdeg Rgen]].
